@@ -81,6 +81,14 @@ def compare_grid(ctx: Ctx, c: Dict[str, Any], g, exp: Dict[str, Any], sig: Dict[
     scale = max(maxabs(cen), maxabs(org or [0.0]), max(a * b for a, b in zip(n, h)))
     tol = bound(scale, F32)
     bad = []
+    if list(g.size()) != list(n) and sig.get("op") == "resample" and "s" in exp:
+        # knife edge: the exact fractional size extent/spacing is an integer (e.g. 100 * 3/10 / 1 = 30) but the spacing has no
+        # exact float: the library's float32 product may land a hair above it and ceil() gives one more sample.  Not judged.
+        sx = F(exp["s"])
+        if all(a == b or (sx[i].denominator == 1 and a == b + 1) for i, (a, b) in enumerate(zip(g.size(), n))):
+            ctx.notes["knife_edge_sizes_not_judged"] = ctx.notes.get("knife_edge_sizes_not_judged", 0) + 1
+            KNIFE.add(json.dumps([c["base"], c["hist"]], sort_keys=True))
+            return True
     if list(g.size()) != list(n):
         bad.append(("size", list(g.size()), n))
     else:
@@ -103,7 +111,13 @@ def compare_grid(ctx: Ctx, c: Dict[str, Any], g, exp: Dict[str, Any], sig: Dict[
     return True
 
 
+KNIFE: set = set()  # (base, history) keys whose last resample hit a knife edge: longer chains through them are not judged either
+
+
 def check_chain(ctx: Ctx, c: Dict[str, Any], variant: int = 0) -> None:
+    if any(json.dumps([c["base"], c["hist"][:k]], sort_keys=True) in KNIFE for k in range(1, len(c["hist"]))):
+        ctx.notes["knife_edge_sizes_not_judged"] = ctx.notes.get("knife_edge_sizes_not_judged", 0) + 1
+        return
     base = mk_grid(c["base"])
     g = base
     hist = c["hist"]
@@ -275,6 +289,7 @@ def run(ctx: Ctx) -> None:
     cases = json_lines(res, key=None)
     if not cases:
         raise MachineryError("no chains emitted")
+    cases.sort(key=lambda c: len(c["hist"]))  # prefixes first (knife-edge bookkeeping)
     for i, c in enumerate(cases):
         check_chain(ctx, c, variant=i + ctx.seed)
     ops_seen = {}
